@@ -227,6 +227,15 @@ FLOATS = [b"-1.5", b"0.25", b"1e-5", b"-2.302585", b"3.4028235e38", b"1e39", b"1
 SEPS = [b" ", b" ", b" ", b"\n", b"\n", b"\t", b"\r\n", b"  ", b" \t ", b"\n\n", b"\r", b"\v", b"\f", b" \n", b"\t\n"]
 
 
+def midpoint_text(rng):
+    """a decimal next to the midpoint of two adjacent floats (the midpoint is a double; 17 digits round it up or down):
+    readers that parse as double and narrow, or break ties the wrong way, return the wrong neighbour"""
+    b = (rng.range(1, 253) << 23) | rng.below(1 << 23)
+    lo = struct.unpack("<f", struct.pack("<I", b))[0]
+    hi = struct.unpack("<f", struct.pack("<I", b + 1))[0]
+    return ("%s%.*g" % (rng.choice(["", "-"]), rng.choice([17, 17, 16, 12]), (lo + hi) / 2)).encode()
+
+
 def rand_word(rng, n):
     kind = rng.below(4)
     if kind == 0:
@@ -272,7 +281,8 @@ def gen_data(rng, size, window):
                 line += rng.choice(WORDS + INTS + FLOATS) + rng.choice([b" ", b"\t", b" "])
             out += bytes(line[:ln]) + rng.choice([b"\n", b"\n", b"\r\n", b"\n\n", b"\r\r\n"])
         elif style == "numbers" or (style == "mixed" and r < 45):
-            out += rng.choice(INTS + FLOATS + [b"%d" % rng.below(1 << rng.range(1, 66)), b"-%d.%de-%d" % (rng.below(100), rng.below(10 ** 7), rng.below(50))]) + rng.choice(SEPS)
+            out += rng.choice(INTS + FLOATS + [b"%d" % rng.below(1 << rng.range(1, 66)), b"-%d.%de-%d" % (rng.below(100), rng.below(10 ** 7), rng.below(50)),
+                                               midpoint_text(rng)]) + rng.choice(SEPS)
         elif style == "arpa":
             out += b"-%d.%06d\t" % (rng.below(9), rng.below(10 ** 6)) + b" ".join(rng.choice(WORDS[:6]) for _ in range(rng.range(1, 4)))
             out += rng.choice([b"\n", b"\t-0.%d\n" % rng.below(10 ** 5)])
@@ -418,10 +428,10 @@ def gen_fp_cases(rng, count, big):
         if size and size < 8:
             data = data[:size]
         ops = gen_ops(rng, data, rng.choice([40, 200, 1200 if not big else 6000]))
-        backend = rng.choice(["M", "M", "M", "R", "R", "R", "R", "P", "I", "ZM", "ZR", "ZM"])
+        backend = rng.choice(["M", "M", "M", "R", "R", "R", "R", "P", "I", "ZM", "ZR", "ZM", "MF", "MF"])
         chunks = []
         comp = b""
-        if backend in ("R", "P", "ZR"):
+        if backend in ("R", "P", "ZR", "MF"):
             chunks = gen_chunks(rng, data, window)
         if backend[0] == "Z":
             comp = compress(rng, data, rng.choice(["gz", "bz2", "xz"]))
@@ -520,7 +530,7 @@ def signature_of(case, k, msg, spec_tok, impl_tok):
     backend, data, ops = fp_fields(case)
     s, so = spec_tok.rsplit("@", 1)
     i, io = impl_tok.rsplit("@", 1) if "@" in impl_tok else (impl_tok, "?")
-    mode = "mmap" if backend == "M" else "read"
+    mode = "mmap" if backend == "M" else "mmap-fails" if backend in ("MF", "PF") else "read"
     if s == "NAN" or is_nan_tok(i):
         return "number:nan"
     if s == i or s == "END":
@@ -549,6 +559,15 @@ def run(ctx):
     corpus = corpus_cases()
     ctx.count("corpus_cases", len(corpus))
     fp_cases = [c for c in corpus if c.startswith("FP ")] + gen_fp_cases(rng, ctx.pick(260, 1500), big)
+    for name in ("/proc/version", "/proc/filesystems", "/proc/sys/kernel/ostype"):
+        # procfs: size 0, mmap fails, read() works -- the first-window fallback without any fault injection
+        try:
+            content = open(name, "rb").read()
+        except OSError:
+            continue
+        if content and content == open(name, "rb").read():
+            for ops in ("L" * (content.count(b"\n") + 2) + "G", "DW" * (len(content.split()) + 1) + "LG"):
+                fp_cases.append("FP PF %x %s - - %s %s" % (rng.choice([1, 4096, 1 << 20]), hexs(content), ops, name))
     rc = gen_rc_cases(rng, ctx.pick(40, 400), big)
     lap("generate")
     impl = vlib.compile_driver("c18_driver", DRIVER_SRC, libs=("kenlm_util",))
@@ -594,7 +613,7 @@ def run(ctx):
             backend, data, ops = fp_fields(c)
             mt = model_to_impl_tokens(b, ops)
             it = a.split()
-            if backend not in ("M", "R"):
+            if backend not in ("M", "R", "MF", "PF"):
                 # the read() sizes of these backends are the kernel's / the decompressor's: by C18_window_refines_spec only the
                 # *kind* of failure on an exhausted input may depend on them (when at_end_ is discovered); values never do
                 st = oracle_tokens(data, ops)
